@@ -3,11 +3,13 @@
 # prints one summary line; details in <variant dir>/confirm.log
 WT=$1; V=$2; cd "$WT" || exit 2
 LOG=$V/confirm.log; : > $LOG
+# DEMO_PROFILE=debug: the demonstration needs a checked build (debug assertions / unsafe-precondition checks), e.g. the C15 seeds
+PROFILE=${DEMO_PROFILE:-release}; BFLAG=$([ "$PROFILE" = release ] && echo --release)
 export CARGO_TARGET_DIR=$WT/target CARGO_NET_OFFLINE=true
 git checkout -q -- . 2>>$LOG; git clean -fdq src 2>>$LOG
 run_demo() {  # $1 = label
-  if [ -f $V/demo.py ]; then timeout 900 python3 $V/demo.py $WT/target/release/rustybait >>$LOG 2>&1; return $?; fi
-  if [ -f $V/demo.sh ]; then timeout 900 bash $V/demo.sh $WT/target/release/rustybait >>$LOG 2>&1; return $?; fi
+  if [ -f $V/demo.py ]; then timeout 900 python3 $V/demo.py $WT/target/$PROFILE/rustybait >>$LOG 2>&1; return $?; fi
+  if [ -f $V/demo.sh ]; then timeout 900 bash $V/demo.sh $WT/target/$PROFILE/rustybait >>$LOG 2>&1; return $?; fi
   if [ -f $V/run_demo.sh ]; then
     if [ -f $V/demo.diff ]; then git apply $V/demo.diff >>$LOG 2>&1 || { echo "demo.diff does not apply" >>$LOG; return 251; }; fi
     timeout 1800 bash $V/run_demo.sh >>$LOG 2>&1; rc=$?
@@ -17,7 +19,7 @@ run_demo() {  # $1 = label
 }
 # --- with the change
 if ! git apply $V/patch.diff >>$LOG 2>&1; then echo "$V: PATCH-DOES-NOT-APPLY"; exit 1; fi
-if ! cargo build --release --offline >>$LOG 2>&1; then echo "$V: DOES-NOT-BUILD"; git checkout -q -- .; exit 1; fi
+if ! cargo build $BFLAG --offline >>$LOG 2>&1; then echo "$V: DOES-NOT-BUILD"; git checkout -q -- .; exit 1; fi
 echo "== tests with change" >>$LOG
 if [ -n "$REUSE_TEST_LOG" ] && grep -q "^test result" $V/tests_with_change.log 2>/dev/null; then echo "(reusing test log of an earlier confirmation run)" >>$LOG; else
 cargo test --offline -- --test-threads 4 --skip perft5_kiwipete --skip perft6_position_4 --skip perft7_position_3 >$V/tests_with_change.log 2>&1
@@ -28,7 +30,7 @@ echo "== demo with change" >>$LOG
 run_demo with; D_WITH=$?
 git checkout -q -- .; git clean -fdq src
 # --- without the change
-cargo build --release --offline >>$LOG 2>&1
+cargo build $BFLAG --offline >>$LOG 2>&1
 echo "== demo without change" >>$LOG
 run_demo without; D_WITHOUT=$?
 git checkout -q -- .; git clean -fdq src
